@@ -56,4 +56,6 @@ MUTANTS = [
     m("c01-termination-needs-steps", "R13", '            if self._termination_criterion(tree, neg_subtree, pos_subtree):\n                break\n', '            if stats["n_step"] > 2 and self._termination_criterion(tree, neg_subtree, pos_subtree):\n                break\n'),
     m("c01-termination-negated-exempt", "R13", '            if self._termination_criterion(tree, neg_subtree, pos_subtree):\n                break\n', '            if depth == 0:\n                continue\n            if self._termination_criterion(tree, neg_subtree, pos_subtree):\n                break\n'),
     m("c01-twin-termination-named", None, '            if self._termination_criterion(tree, neg_subtree, pos_subtree):\n                break\n', '            stop = self._termination_criterion(tree, neg_subtree, pos_subtree)\n            if stop:\n                break\n', twin=True),
+    {'id': 'c01-metropolis-accepts-on-equal', 'prop': 'C01', 'rule': 'R14', 'edits': [{'file': 'transitions.py', 'old': '        if not integration_error and rng.uniform() < accept_prob:\n            state = state_p\n', 'new': '        if not integration_error and rng.uniform() > accept_prob:\n            state = state_p\n'}], 'key': 'accept-rule'},
+    {'id': 'c01-twin-metropolis-accept-named', 'prop': 'C01', 'rule': None, 'edits': [{'file': 'transitions.py', 'old': '        if not integration_error and rng.uniform() < accept_prob:\n            state = state_p\n', 'new': '        accepted = not integration_error and rng.uniform() < accept_prob\n        if accepted:\n            state = state_p\n'}], 'twin': True},
 ]
